@@ -81,6 +81,10 @@ class Lead(Generic[T1, Unpack[Ts]]):
 
 Point = collections.namedtuple('Point', ['x', 'y'])
 
+@dataclass
+class Box2(Generic[T1]):
+    v: T1
+
 class TDro(TypedDict):
     ident: ReadOnly[int]
     when: NotRequired[ReadOnly[datetime.date]]
@@ -113,6 +117,9 @@ class Rare@MIX@:
     rows: List[Row[datetime.date]] = field(default_factory=list)
     empty: Row[()] = field(default_factory=lambda: Row(()))
     wopt: Optional[DictWrapper[int, int]] = None
+    bo: Box2[Optional[datetime.date]] = field(default_factory=lambda: Box2(None))
+    fo: Final[Optional[datetime.date]] = None
+    fu: Final[Union[int, None, str]] = None
 @CFG@
 @dataclass
 class RareD(DataClassDictMixin):
@@ -152,7 +159,8 @@ def rare_constructors_case(rng, rec):
         txt = rng.choice(["", "x", "né", "a'b"])
         v = m.Rare(w1=m.DictWrapper({d1: txt}), w2=m.DictWrapper({"k": d2}), row=m.Row((1, d1, "s"), "l"), lead=m.Lead(d2, (7, u)), ls=txt, pt=m.Point(1, "y"),
                    ro={"ident": 3, "when": d1} if rng.random() < 0.6 else {"ident": 3}, rows=[m.Row((d2,))], empty=m.Row(()),
-                   wopt=m.DictWrapper({1: 2}) if rng.random() < 0.5 else None)
+                   wopt=m.DictWrapper({1: 2}) if rng.random() < 0.5 else None,
+                   bo=m.Box2(rng.choice([None, d2])), fo=rng.choice([None, d1]), fu=rng.choice([None, 3, "s"]))
         vd = m.RareD(shapes=[m.Circle(1, r=2), m.Sq(3, side=d2)], shmap={"k": m.Sq(4, side=d1)}, shopt=m.Circle(5, r=6) if rng.random() < 0.5 else None)
         expd = {"shapes": [{"area": 1, "kind": "circle", "r": 2}, {"area": 3, "kind": "sq", "side": d2.isoformat()}],
                 "shmap": {"k": {"area": 4, "kind": "sq", "side": d1.isoformat()}}, "shopt": {"area": 5, "kind": "circle", "r": 6} if vd.shopt is not None else None}
@@ -172,7 +180,8 @@ def rare_constructors_case(rng, rec):
         exp = {"w1": {d1.isoformat(): txt}, "w2": {"k": d2.isoformat()}, "row": {"cells": [1, d1.isoformat(), "s"], "label": "l"},
                "lead": {"head": d2.isoformat(), "rest": [7, str(u)]}, "ls": txt, "pt": [1, "y"],
                "ro": {"ident": 3, **({"when": d1.isoformat()} if "when" in v.ro else {})}, "rows": [{"cells": [d2.isoformat()], "label": ""}],
-               "empty": {"cells": [], "label": ""}, "wopt": {1: 2} if v.wopt is not None else None}
+               "empty": {"cells": [], "label": ""}, "wopt": {1: 2} if v.wopt is not None else None,
+               "bo": {"v": None if v.bo.v is None else v.bo.v.isoformat()}, "fo": None if v.fo is None else v.fo.isoformat(), "fu": v.fu}
         routes = [("codec", BasicEncoder(m.Rare).encode, BasicDecoder(m.Rare).decode)]
         if mixin:
             routes.append(("mixin", lambda x: x.to_dict(), m.Rare.from_dict))
